@@ -679,3 +679,71 @@ Proof.
   - cbn [a_denom set_a_vshares set_a_tokens d_hist set_d_shares vi_hist set_vi_vshares set_vi_dshares]. rewrite Hdn. exact Hhist.
   - cbn [a_denom set_a_vshares set_a_tokens]. rewrite Hdn. exact Hsnap.
 Qed.
+
+(* ================= the split (pro rata) ================= *)
+(* AddAssetsToRewardPool's index loop is a pure double fold: for every live asset a and every coin c of the
+   reward, the index of (denom c, a) grows by  amount(c) x nw(a) / tokens of a on the validator,  with
+   nw(a) = srw(a) / sum of srw over the live assets and srw(a) = weight(a) x tokens(a on V) / total(a):
+   the reward is split among the started assets staked on V in proportion to weight x (tokens on V / total) *)
+Lemma mfold_ret A B (g : B -> A -> B) (l : list A) : forall acc s,
+  mfold l acc (fun acc x => ret (g acc x)) s = Ok (fold_left g l acc) s.
+Proof. induction l as [|x l IH]; intros acc s; cbn [mfold fold_left]; [reflexivity|]. unfold bind, ret. apply IH. Qed.
+
+Definition add_index (hist : list RH) (rd dn diff : Z) : list RH :=
+  match rh_find hist rd dn with
+  | None => hist ++ [mkRH rd dn diff]
+  | Some h => rh_set_index hist rd dn (rh_index h + diff)
+  end.
+Definition srw (vi : ValInfo) (a : Asset) : Z := dquo_int (dmul (a_weight a) (val_tokens a vi)) (a_tokens a).
+Definition share_of (vi : ValInfo) (live : list Asset) (a : Asset) : Z :=
+  dquo (srw vi a) (fold_left (fun acc b => acc + srw vi b) live 0).
+Definition index_diff (vi : ValInfo) (live : list Asset) (a : Asset) (amount : Z) : Z :=
+  dquo (dmul (dec_of_int amount) (share_of vi live a)) (val_tokens a vi).
+Definition new_history (vi : ValInfo) (live : list Asset) (coins : Coins) : list RH :=
+  fold_left (fun hist a => fold_left (fun hist c => add_index hist (fst c) (a_denom a) (index_diff vi live a (snd c))) coins hist)
+            live (vi_hist vi).
+
+Lemma inner_loop (F : Z -> Z) dn coins : forall h0 st,
+  mfold coins h0 (fun hist0 c =>
+     match rh_find hist0 (fst c) dn with
+     | None => ret (hist0 ++ [mkRH (fst c) dn (F (snd c))])
+     | Some h => ret (rh_set_index hist0 (fst c) dn (rh_index h + F (snd c)))
+     end) st
+  = Ok (fold_left (fun hist0 c => add_index hist0 (fst c) dn (F (snd c))) coins h0) st.
+Proof.
+  induction coins as [|c cs IH]; intros h0 st; cbn [mfold fold_left]; [reflexivity|].
+  unfold bind. unfold add_index at 2. destruct (rh_find h0 (fst c) dn); cbn [ret]; apply IH.
+Qed.
+Lemma outer_loop (F : Asset -> Z -> Z) coins : forall l h0 st,
+  mfold l h0 (fun hist a =>
+     mfold coins hist (fun hist0 c =>
+       match rh_find hist0 (fst c) (a_denom a) with
+       | None => ret (hist0 ++ [mkRH (fst c) (a_denom a) (F a (snd c))])
+       | Some h => ret (rh_set_index hist0 (fst c) (a_denom a) (rh_index h + F a (snd c)))
+       end)) st
+  = Ok (fold_left (fun hist a => fold_left (fun hist0 c => add_index hist0 (fst c) (a_denom a) (F a (snd c))) coins hist) l h0) st.
+Proof.
+  induction l as [|a l IH]; intros h0 st; cbn [mfold fold_left]; [reflexivity|].
+  unfold bind at 1. rewrite (inner_loop (F a) (a_denom a) coins h0 st). apply IH.
+Qed.
+
+Theorem reward_index_formula v vi coins s :
+  (length (vi_dshares vi) =? 0)%nat = false ->
+  let live := filter (fun a => negb (skip_rewards (now s) a vi)) (map snd (assets s)) in
+  fold_left (fun acc b => acc + srw vi b) live 0 <> 0 ->
+  match add_assets_to_reward_pool v vi coins s with
+  | Ok vi' _ => vi_hist vi' = new_history vi live coins
+  | _ => True
+  end.
+Proof.
+  intros Hd live Htot. unfold add_assets_to_reward_pool. rewrite Hd.
+  unfold bind at 1, all_assets at 1, gets at 1. unfold bind at 1, gets at 1. fold live.
+  assert (Ht : fold_left (fun acc a0 => acc + dquo_int (dmul (a_weight a0) (val_tokens a0 vi)) (a_tokens a0)) live 0 =? 0 = false)
+    by (apply Z.eqb_neq; exact Htot).
+  rewrite Ht. unfold bind at 1.
+  pose proof (outer_loop (fun a amt => index_diff vi live a amt) coins live (vi_hist vi) s) as E.
+  unfold index_diff, share_of, srw in E. rewrite E. clear E.
+  unfold bind at 1. unfold set_valinfo at 1, modify.
+  unfold bind at 1. destruct (bank_send ACC_ALLIANCE ACC_REWARDS coins _) as [[] s2| |]; try exact I.
+  cbn [ret vi_hist set_vi_hist]. unfold new_history, index_diff, share_of, srw. reflexivity.
+Qed.
